@@ -176,8 +176,17 @@ def call_ext(I: Interp, name: str, args, kwargs, fr: Frame, node=None):
         return st.fresh_val("time", T.EXT("datetime"))
     if short in ("Field", "PrivateAttr"):
         return st.fresh_val("field")
-    if name.startswith("warnings."):
+    if name.startswith("warnings.") or name.startswith("torch.") or name.startswith("th."):
         return const(None)
+    if name in ("random.seed", "numpy.random.seed", "np.random.seed"):
+        # seeding a global generator: recorded in the ghost event log so that contracts can demand it
+        from .calls import append_event
+        append_event(st, "seed_python" if name == "random.seed" else "seed_numpy", [I.to_sv(args[0]).t if args else smt.NONE])
+        return const(None)
+    if name in ("numpy.random.default_rng", "np.random.default_rng"):
+        r = st.new_ref(-22)
+        st.log.append("numpy.random.default_rng(): opaque generator object")
+        return SV(smt.mk_ref(r), T.EXT("rng"))
     if name in ("numpy.asarray", "numpy.array", "np.asarray", "np.array"):
         st.log.append("numpy.asarray(list, dtype=...) modelled as the same sequence of values")
         return args[0]
@@ -534,6 +543,12 @@ def call_container_method(I: Interp, recv: SV, name: str, args, kwargs, fr: Fram
             raise Refuse("str.split")
         raise Refuse(f"str.{name}")
     if k == "ext" and ty.a[0] in ("rng", "numpy.random._generator.Generator", "numpy.random.Generator"):
+        if name == "integers":
+            lo = I.num(kwargs.get("low", args[0] if args else const(0)))[0]
+            hi = I.num(kwargs.get("high", args[1] if len(args) > 1 else const(1)))[0]
+            r_ = st.fresh("rng_int", smt.I)
+            st.assume(z3.And(r_ >= lo, r_ < hi))
+            return SV(smt.mk_int(r_), T.INT)
         if name == "choice" and len(args) == 1 and "p" in kwargs:
             # numpy Generator.choice(n, p=vec): requires len(vec) == n; ensures 0 <= r < n and vec[r] > 0
             n_, _ = I.num(args[0])
